@@ -56,7 +56,7 @@ AnalyseCase(ev) ==
       pts == ev.pts
       bb == BBox(In)
       cells == IF ps = 2 /\ rect THEN {<<2 * i + 1, 2 * j + 1>> : i \in bb[1]..(bb[3] - 1), j \in bb[2]..(bb[4] - 1)} ELSE {}   \* only the cell-exact (C02) clauses need them
-  IN [ subj |-> ev.subj, clip |-> ev.clip, emb |-> ev.emb, ps |-> ps, pts |-> pts, gp |-> gp, rect |-> rect /\ X = <<>>,
+  IN [ light |-> ("light" \in DOMAIN ev), subj |-> ev.subj, clip |-> ev.clip, emb |-> ev.emb, ps |-> ps, pts |-> pts, gp |-> gp, rect |-> rect /\ X = <<>>,
        bb |-> IF X = <<>> THEN bb ELSE <<bb[1], Min2(bb[2], CHOOSE v \in {X[i][2] : i \in 1..Len(X)} : \A i \in 1..Len(X) : v <= X[i][2]),
                                          CHOOSE v \in {X[i][3] : i \in 1..Len(X)} : \A i \in 1..Len(X) : v >= X[i][3],
                                          Max2(bb[4], CHOOSE v \in {X[i][4] : i \in 1..Len(X)} : \A i \in 1..Len(X) : v >= X[i][4])>>,
@@ -81,13 +81,14 @@ AnalyseOut(ev) ==
       P == IF lat THEN ev.paths ELSE <<>>
       EP == AllEdges(ScalePaths(P, cs.ps))
       nx == Min2(XN, Len(cs.pts))
+      heavy == lat /\ ~cs.light        \* "light" cases (C02's large exhaustive scopes) skip the C03 well-formedness analysis, which C03 runs itself
   IN [ n |-> ev.n, minlen |-> ev.minlen, dups |-> ev.dups, bb |-> ev.bb, cover |-> ev.cover, lat |-> lat, paths |-> P,
-       xcheck |-> lat => \A i \in 1..nx : (ev.cover[i] = 99 /\ OnAny(EP, cs.pts[i])) \/ (ev.cover[i] = Wind(EP, cs.pts[i])),
+       xcheck |-> heavy => \A i \in 1..nx : (ev.cover[i] = 99 /\ OnAny(EP, cs.pts[i])) \/ (ev.cover[i] = Wind(EP, cs.pts[i])),
        struct |-> lat => (StructOK(P) /\ Len(P) = ev.n),
-       zero |-> lat /\ HasZeroArea(P), spike |-> lat /\ HasSpike(P), coll |-> lat /\ HasCollinear(P),
-       cross |-> lat /\ HasCrossing(P), or0 |-> lat => OrientOK(P, 0), or1 |-> lat => OrientOK(P, 1),
-       touch |-> lat /\ Touching(P),
-       far |-> IF lat THEN {k \in 1..Len(P) : \E i \in 1..Len(P[k]) :
+       zero |-> heavy /\ HasZeroArea(P), spike |-> heavy /\ HasSpike(P), coll |-> heavy /\ HasCollinear(P),
+       cross |-> heavy /\ HasCrossing(P), or0 |-> heavy => OrientOK(P, 0), or1 |-> heavy => OrientOK(P, 1),
+       touch |-> heavy /\ Touching(P),
+       far |-> IF heavy THEN {k \in 1..Len(P) : \E i \in 1..Len(P[k]) :
                               \* m = 1: farther than 2 units; scaled rectilinear input: a lattice vertex must lie ON an input edge;
                               \* scaled general-position input: farther than 1 lattice unit (= m >= 3 units) is certainly farther than 2 units
                               \A j \in 1..Len(cs.ein) : IF EmbM1(cs.emb) THEN FarSeg(P[k][i], cs.ein[j][1], cs.ein[j][2], 2)
